@@ -1,11 +1,13 @@
 import TbbVerif.Core.Proto
 import TbbVerif.Model.C18
+import TbbVerif.Model.C18LadderDrv
 
 open TbbVerif
 
 def drivers : List (String × Proto.Driver) := [
   ("c18", C18.driver),
-  ("c18ledger", C18.driverLedger)
+  ("c18ledger", C18.driverLedger),
+  ("c18ld", C18.Ladder.driver)
 ]
 
 def main (args : List String) : IO UInt32 := Proto.mainOf drivers args
